@@ -91,7 +91,8 @@ TEnd == /\ IsEv("end") /\ pc = "idle" /\ pc' = "end"
 
 TNext == \/ TOpsCall
          \/ TCtor \/ TField \/ TLinks \/ TEuler \/ TInduced \/ TFinish \/ TEnd
-         \/ Silent(BeginStep) \/ Silent(TrigSkip) \/ Silent(NoLinks)
+         \/ (l <= Len(T.ev) /\ Ev.ev # "end" /\ Silent(BeginStep))     \* no step begins after the last one
+         \/ Silent(TrigSkip) \/ Silent(NoLinks)
 
 TSpec == TInit /\ [][TNext]_tvars
 
